@@ -2,7 +2,7 @@
 # tools/seedverify.sh <Cxx> <i> [race]: confirm a seeded change in its scratch worktree, then file it under /verif/seeded/<Cxx>-<i>
 set -u
 P=$1; I=$2; RACE=${3:-}
-WT=/tmp/wt-$P; S=$WT/SEED/$I
+WT=${WTBASE:-/tmp/wt}-$P; S=$WT/SEED/$I
 export GOFLAGS=-mod=mod GOPROXY=off GOSUMDB=off GOTOOLCHAIN=local
 cd $WT || exit 1
 git checkout -q -- . ; rm -f zz_seed_demo_test.go
@@ -20,10 +20,10 @@ timeout 300 go test $RF -vet=off -count=1 -run "^$TESTNAME\$" . > /tmp/sv-$P-$I-
 rm -f zz_seed_demo_test.go; git checkout -q -- .
 echo "$P/$I demo_clean_exit=$CLEAN suite_with_patch_exit=$SUITE demo_with_patch_exit=$MUT test=$TESTNAME"
 if [ $CLEAN -eq 0 ] && [ $SUITE -eq 0 ] && [ $MUT -ne 0 ]; then
-  D=/verif/seeded/$P-$I; mkdir -p $D; cp $S/patch.diff $S/demo_test.go $D/; cp $S/README.md $D/AGENT_README.md
+  D=/verif/seeded/$P-${SEEDTAG:-}$I; mkdir -p $D; cp $S/patch.diff $S/demo_test.go $D/; cp $S/README.md $D/AGENT_README.md
   python3 - <<PY
 import json
-json.dump({"property":"$P","seed":"$P-$I","source":"independent sub-agent given only the property text and a scratch worktree","demo_test":"$TESTNAME","race_flag":bool("$RACE"),
+json.dump({"property":"$P","seed":"$P-${SEEDTAG:-}$I","source":"independent sub-agent given only the property text and a scratch worktree","demo_test":"$TESTNAME","race_flag":bool("$RACE"),
  "confirmed":{"existing_suite_with_patch":"pass","demo_with_patch":"fail","demo_without_patch":"pass","how":"tools/seedverify.sh $P $I $RACE in the scratch worktree /tmp/wt-$P (removed afterwards)"}},open("$D/meta.json","w"),indent=1)
 PY
   echo "  filed as $D"
